@@ -65,8 +65,13 @@ fn gen_scene(rng: &mut Rng, idx: u64) -> Option<Scene> {
     }
     let probe = cell.build();
     let start = free_posture(rng, &cell, &probe)?;
-    let layout = *rng.pick(&["free", "obstacle", "obstacle", "near_goal", "tiny_budget", "narrow_limits", "narrow_limits", "goal_turn_away"]);
-    let step = if layout == "narrow_limits" { rng.range(6.0, 14.0f64).to_radians() } else { rng.range(2.0, 12.0f64).to_radians() };
+    let layout = *rng.pick(&["free", "obstacle", "obstacle", "near_goal", "tiny_budget", "narrow_limits", "narrow_limits", "goal_turn_away", "tiny_cell", "no_environment"]);
+    let step = if layout == "narrow_limits" { rng.range(6.0, 14.0f64).to_radians() } else if layout == "tiny_cell" { rng.range(0.07, 0.12) } else { rng.range(2.0, 12.0f64).to_radians() };
+    if layout == "no_environment" {
+        // nothing but the robot's own parts (links, tool, base) can be hit
+        cell.env.clear();
+        cell.safety.special.retain(|((a, b), _)| *a < 1000 && *b < 1000);
+    }
     let goal = if layout == "near_goal" {
         let mut g = start;
         let j = rng.usize(6);
@@ -102,6 +107,21 @@ fn gen_scene(rng: &mut Rng, idx: u64) -> Option<Scene> {
         let j = rng.usize(6);
         goal[j] += if goal[j] > 0.0 { -2.0 * std::f64::consts::PI } else { 2.0 * std::f64::consts::PI };
     }
+    if layout == "tiny_cell" {
+        // every joint may move by a few planner steps only: samples land between one and two steps from tree nodes
+        // all the time (edges and junction hops are as long as the planner ever makes them)
+        let (mut from, mut to) = (start, start);
+        for j in 0..6 {
+            let w = rng.range(0.1, 0.2);
+            from[j] -= w;
+            to[j] += w;
+            goal[j] = start[j] + rng.range(-0.95, 0.95) * w;
+        }
+        cell.constraints = Constraints::new(from, to, 0.0);
+        if cell.build().collides(&goal) {
+            return None;
+        }
+    }
     if layout == "narrow_limits" {
         // three or four joints are locked to a fraction of a degree around the start value: sampling
         // becomes effectively low-dimensional, so random samples regularly land within one step of
@@ -131,6 +151,17 @@ fn gen_scene(rng: &mut Rng, idx: u64) -> Option<Scene> {
             if r2.collides(&start) || r2.collides(&goal) {
                 cell.env.pop();
             }
+        }
+    }
+    if layout == "no_environment" && cell.base.is_some() {
+        // the only thing in the way is the robot's own base, shaped as a box in the middle of the straight move
+        let mid: [f64; 6] = std::array::from_fn(|j| (start[j] + goal[j]) / 2.0);
+        let saved = cell.base.clone();
+        let tgt = 1 + rng.usize(5);
+        cell.design_base(rng, &mid, tgt, -0.02);
+        let r2 = cell.build();
+        if r2.collides(&start) || r2.collides(&goal) {
+            cell.base = saved;
         }
     }
     if layout == "obstacle" {
@@ -226,7 +257,7 @@ fn check_path(mon: &mut Mon, s: &Scene, robot: &KinematicsWithShape, path: &Vec<
 
 fn paths(idx: u64, rng: &mut Rng, mon: &mut Mon, s: &Scene) {
     // (the low-dimensional layout is where an unchecked sample can enter a tree: more plannings there)
-    let repeats = if s.layout == "narrow_limits" { 12 } else { 4 };
+    let repeats = if s.layout == "narrow_limits" { 12 } else if s.layout == "tiny_cell" { 40 } else { 4 };
     mon.count(&format!("layout.{}", s.layout));
     for _ in 0..repeats {
         let (robot, spy) = build_spied(&s.cell, None);
